@@ -267,7 +267,7 @@ def execute(program, ch: Chooser) -> Result:  # noqa: C901, PLR0915
         def maybe_start(pos: int) -> None:
             for child_idx, (starter, p, how) in enumerate(program["starts"], start=1):
                 if starter == tid and p == pos:
-                    coro = run_task(child_idx, env, in_scope, soft)
+                    coro = run_task(child_idx, [dict(lv) for lv in env], in_scope, soft)  # (a snapshot: the starter may go on within the same step)
                     if how == "spawn":
                         try:
                             t = ctx.spawn(lambda c=coro: c)
